@@ -12,15 +12,16 @@ import "sync"
 // been released exactly once; the directory reopens to a prefix of the history
 // containing every batch whose persisted-callback reported success.
 //
-// vf:harness property=C11 sched=1 schedbudget=1 schedbudget.thorough=2 preempt=1 schedtotal=1 schedtotal.thorough=2 goinline=1 chanslack=8 deadlock=violation clock=zero maxpaths=400000 replay=model-only diff=off
+// vf:harness property=C11 cases=order:0..1;pace:0,13 cases.thorough=order:0..2;pace:0,4,13,21,26 sched=1 schedbudget=1 schedbudget.thorough=2 preempt=1 schedtotal=1 schedtotal.thorough=2 goinline=1 chanslack=8 deadlock=violation clock=zero maxpaths=400000 replay=model-only diff=off
 // vf:replace hash/crc32.Update vfChecksumUpdate
 // vf:replace io.CopyN vfCopyN
 // vf:replace (*github.com/RoaringBitmap/roaring.Bitmap).ReadFrom vfRoaringReadFrom
 // vf:replace (*github.com/RoaringBitmap/roaring.Bitmap).ToBytes vfRoaringToBytes
-// vf:bounds three single-update batches in unsafe mode (ids 1..3, arbitrary payloads), one held Reader, Close after the callers returned; at most schedtotal departures from the default schedule (another runnable goroutine at a blocking point, or a switch before a synchronisation operation), which places Close at different points of the persister's and merger's work
+// vf:bounds three single-update batches in unsafe mode (ids 1..3, arbitrary payloads), one held Reader, Close after the callers returned; caller pacing between its operations from a base-3 code (at once / one scheduling point / after the background work settled); at most schedtotal departures from the default schedule (another runnable goroutine at a blocking point, or a switch before a synchronisation operation), around two (thorough three) default schedules — lowest goroutine id first, longest-waiting first (FIFO), highest id first — which places Close at different points of the persister's and merger's work
 // vf:assume as VF_C02_AckedBatchIsDurable
-func VF_C11_LiveCloseAnytime() {
-	vfLiveCloseAnytime(0)
+func VF_C11_LiveCloseAnytime(order int, pace int) {
+	vfSchedOrder(order)
+	vfLiveCloseAnytime(0, pace)
 }
 
 // C02 acknowledgement clause with a safe Batch in flight while the writer is
@@ -31,18 +32,19 @@ func VF_C11_LiveCloseAnytime() {
 // block forever or panic (DESIGN.md observation O7), so hangs end a path
 // without a verdict and a panic of the in-flight caller is recovered.
 //
-// vf:harness property=C02 sched=1 schedbudget=1 schedbudget.thorough=2 preempt=1 schedtotal=1 schedtotal.thorough=2 goinline=1 chanslack=8 deadlock=ignore clock=zero maxpaths=400000 replay=model-only diff=off
+// vf:harness property=C02 cases=order:0..1 cases.thorough=order:0..2 sched=1 schedbudget=1 schedbudget.thorough=2 preempt=1 schedtotal=1 schedtotal.thorough=2 goinline=1 chanslack=8 deadlock=ignore clock=zero maxpaths=400000 replay=model-only diff=off
 // vf:replace hash/crc32.Update vfChecksumUpdate
 // vf:replace io.CopyN vfCopyN
 // vf:replace (*github.com/RoaringBitmap/roaring.Bitmap).ReadFrom vfRoaringReadFrom
 // vf:replace (*github.com/RoaringBitmap/roaring.Bitmap).ToBytes vfRoaringToBytes
 // vf:bounds one acknowledged batch, then a safe Batch in flight from a second goroutine while the first closes the writer; schedule bounds as VF_C11_LiveCloseAnytime
 // vf:assume as VF_C02_AckedBatchIsDurable; schedules in which the in-flight Batch never returns, and a panic inside it, are outside the claim (observation O7)
-func VF_C02_AckWhileClosing() {
-	vfLiveCloseAnytime(1)
+func VF_C02_AckWhileClosing(order int) {
+	vfSchedOrder(order)
+	vfLiveCloseAnytime(1, 0)
 }
 
-func vfLiveCloseAnytime(inflight int) {
+func vfLiveCloseAnytime(inflight int, pace int) {
 	wd := &vfWorld{dir: vfNewDir(), states: [][]vfSeen{nil}}
 	wd.install()
 	w, err := OpenWriter(vfLiveConfig(wd.dir, inflight == 0))
@@ -66,6 +68,8 @@ func vfLiveCloseAnytime(inflight int) {
 	if inflight == 0 {
 		for id := byte(1); id <= 3; id++ {
 			vfAssert(issue(vfStep{op: 0, id: id, payload: vfByte("payload")}) == nil, "an unsafe Batch succeeds")
+			vfPace(pace % 3) // the caller's pacing before its next operation
+			pace /= 3
 		}
 	} else {
 		vfAssert(issue(vfStep{op: 0, id: 1, payload: vfByte("payload")}) == nil, "first Batch succeeds")
@@ -86,7 +90,8 @@ func vfLiveCloseAnytime(inflight int) {
 	}
 	r, rerr := w.Reader()
 	vfAssert(rerr == nil && r != nil, "a reader can be obtained")
-	before := vfSortedContent(r)
+	var before []vfSeen
+	vfAtomic(func() { before = vfSortedContent(r) })
 	vfAssert(w.Close() == nil, "Close succeeds")
 	wg.Wait()
 	vfReaderBacked(r, "after the writer was closed")
@@ -96,4 +101,20 @@ func vfLiveCloseAnytime(inflight int) {
 		vfAssert(c.closed == 1, "every item loaded from the directory is released exactly once after the writer and all readers are closed")
 	}
 	wd.crashAt(wd.cloneDir("", 0), "reopen after Close")
+}
+
+// C04 clause of the Close-anytime run: a Reader held across Writer.Close keeps
+// answering and nothing backing it is released before it is closed (registered
+// under C04 so that C04's own check reports it).
+//
+// vf:harness property=C04 cases=order:1;pace:0,13 cases.thorough=order:0..2;pace:0,13,26 sched=1 schedbudget=1 schedbudget.thorough=2 preempt=1 schedtotal=1 schedtotal.thorough=2 goinline=1 chanslack=8 deadlock=violation clock=zero maxpaths=400000 replay=model-only diff=off
+// vf:replace hash/crc32.Update vfChecksumUpdate
+// vf:replace io.CopyN vfCopyN
+// vf:replace (*github.com/RoaringBitmap/roaring.Bitmap).ReadFrom vfRoaringReadFrom
+// vf:replace (*github.com/RoaringBitmap/roaring.Bitmap).ToBytes vfRoaringToBytes
+// vf:bounds as VF_C11_LiveCloseAnytime (quick: FIFO default schedule only)
+// vf:assume as VF_C11_LiveCloseAnytime
+func VF_C04_ReaderHeldAcrossClose(order int, pace int) {
+	vfSchedOrder(order)
+	vfLiveCloseAnytime(0, pace)
 }
